@@ -278,6 +278,7 @@ class Synth:
     def __init__(self, vocab, case, obs):
         self.v, self.c, self.o = vocab, case, obs
         self.tok = vocab.get("tokens", {})
+        self.invalid_choice = None    # which of the specification's invalid texts a violating value uses
         self.uris = {k: r["uri"] for k, r in vocab.get("uris", {}).items()}
 
     def uri(self, uid):
@@ -381,7 +382,7 @@ class Synth:
                 root_rust = base.get("rust") if base.get("k") == "builtin" else self.base_rust(base)
                 want_valid = not (violate is not None and violate(exp))
                 # the value inside / outside the facets is the specification's choice (Schema!ValidText / InvalidText)
-                txt = exp.get("valid") if want_valid else exp.get("invalid")
+                txt = exp.get("valid") if want_valid else (self.invalid_choice or exp.get("invalid"))
                 if txt is not None and txt != "?":
                     facet_lit = (rs_str(txt) + ".to_string()") if r[1] == "String" else txt
             if facet_lit is not None:
@@ -395,7 +396,7 @@ class Synth:
                 sub_force = force
                 if sub_force is None and exp and exp.get("kind") == "simple" and exp.get("facets"):
                     want_valid = not (violate is not None and violate(exp))
-                    txt = exp.get("valid") if want_valid else exp.get("invalid")
+                    txt = exp.get("valid") if want_valid else (self.invalid_choice or exp.get("invalid"))
                     sub_force = txt if txt not in (None, "?") else None
                 inner = self.value(r[1], r[2], plan, child_exp, depth + 1, violate, sub_force)
             w = f["w"]
@@ -562,13 +563,15 @@ pub fn fix(root: &str, plan: &str) -> Option<bool> {
                 body.append("    }")
             base_val = self.value(m, st, "max")
             for e in self.c["expect"]:
-                if e.get("facets") and e.get("invalid") not in (None, "?"):
+                for bad in (e.get("invalids") or []):
+                    self.invalid_choice = bad
                     one = self.value(m, st, "max", violate=lambda x, e=e: x is e)
+                    self.invalid_choice = None
                     if one != base_val:
                         body.append("    {")
                         body.append(f"        let v = {one};")
                         body.append(f"        let chk = v.check_restrictions(None);")
-                        body.append(f"        ev.push({cid}, \"env_check\", &[(\"op\", s({rs_str(rid + ':' + e['xml'])})), (\"violating\", b(true)), (\"check_ok\", b(chk.is_ok()))]);")
+                        body.append(f"        ev.push({cid}, \"env_check\", &[(\"op\", s({rs_str(rid + ':' + e['xml'] + '=' + bad)})), (\"violating\", b(true)), (\"check_ok\", b(chk.is_ok()))]);")
                         body.append("    }")
             de_arms.append(f"        {rs_str(rid)} => Some(de_one::<{ty}>(xml)),")
         body.append("    extra(ev);")
@@ -929,13 +932,15 @@ def synth_extra(vocab, case, obs):
             body.append("    }")
         # ... and one restricted type at a time: exactly the leaves of that type break their facets
         for e in case["expect"]:
-            if e.get("facets") and e.get("invalid") not in (None, "?"):
+            for bad in (e.get("invalids") or []):
+                sy.invalid_choice = bad
                 one = sy.value("", in_st, "max", violate=lambda x, e=e: x is e)
+                sy.invalid_choice = None
                 if one != vin:
                     body.append("    {")
                     body.append(f"        let v = {one};")
                     body.append(f"        let chk = v.check_restrictions(None);")
-                    body.append(f"        ev.push({cid}, \"env_check\", &[(\"op\", s({rs_str(name + ':' + e['xml'])})), (\"violating\", b(true)), (\"check_ok\", b(chk.is_ok()))]);")
+                    body.append(f"        ev.push({cid}, \"env_check\", &[(\"op\", s({rs_str(name + ':' + e['xml'] + '=' + bad)})), (\"violating\", b(true)), (\"check_ok\", b(chk.is_ok()))]);")
                     body.append("    }")
         reply_other = ""
         if has_out:
@@ -980,7 +985,7 @@ def synth_extra(vocab, case, obs):
         else:
             body.append("        let reply_exact: String = String::new();")
         body.append(f"        let reply_other: String = {rs_str(reply_other)}.to_string();")
-        body.append("        let scns: &[(usize, bool, bool, &str, u16, &str)] = &[")
+        body.append("        let scns: &[(usize, bool, &str, &str, u16, &str)] = &[")
         for i, sc in enumerate(scns):
             if sc["violates"] and not violating:
                 continue
@@ -989,7 +994,7 @@ def synth_extra(vocab, case, obs):
                 continue
             if not has_out and scr["k"] == "reply" and scr["body"] in ("exact", "other_prefixes"):
                 continue
-            body.append(f"            ({i}, {str(sc['violates']).lower()}, {str(sc['creds']).lower()}, \"{scr['k']}\", {scr.get('status', 0)}, \"{scr.get('body', '-')}\"),")
+            body.append(f"            ({i}, {str(sc['violates']).lower()}, \"{sc['creds']}\", \"{scr['k']}\", {scr.get('status', 0)}, \"{scr.get('body', '-')}\"),")
         body.append("        ];")
         body.append("        for (scn, violates, creds, kind, status, body_class) in scns.iter().cloned() {")
         body.append("            let reply = match body_class { \"exact\" => reply_exact.clone(), \"other_prefixes\" => reply_other.clone(), \"empty\" => String::new(), \"non_xml\" => \"this is not xml\".to_string(), _ => FAULT.to_string() };")
@@ -1000,7 +1005,8 @@ def synth_extra(vocab, case, obs):
         body.append("                \"truncate\" => { let sv = Server::start(Script::Truncate { status: 200, body: if reply_exact.is_empty() { FAULT.to_string() } else { reply_exact.clone() } }); let p = sv.port; (Some(sv), p) }")
         body.append("                _ => { let sv = Server::start(Script::Reply { status, body: reply.clone() }); let p = sv.port; (Some(sv), p) }")
         body.append("            };")
-        body.append(f"            let mut svc = g::{svc}::new(if creds {{ Some((\"zv-user\".to_string(), \"pa ss:w\\u{{e4}}rd\".to_string())) }} else {{ None }});")
+        body.append("            let (user, pass) = match creds { \"empty_user\" => (\"\", \"tok en-123\"), _ => (\"zv-user\", \"pa ss:w\\u{e4}rd\") };")
+        body.append(f"            let mut svc = g::{svc}::new(if creds != \"none\" {{ Some((user.to_string(), pass.to_string())) }} else {{ None }});")
         body.append("            let declared = svc.location.clone();")
         body.append("            svc.location = format!(\"http://127.0.0.1:{port}/zv/items\");")
         body.append(f"            let req = if violates {{ {vbad} }} else {{ {vin} }};")
@@ -1016,10 +1022,10 @@ def synth_extra(vocab, case, obs):
         body.append("            let method = first.as_ref().map(|r| r.0.clone()).unwrap_or_default();")
         body.append("            let path = first.as_ref().map(|r| r.1.clone()).unwrap_or_default();")
         body.append("            let auth = first.as_ref().and_then(|r| r.2.iter().find(|h| h.0 == \"authorization\").map(|h| h.1.clone()));")
-        body.append("            let auth_state = match (&auth, creds) { (None, _) => \"absent\", (Some(a), _) if a == &format!(\"Basic {}\", base64(\"zv-user:pa ss:w\\u{e4}rd\".as_bytes())) => \"correct\", _ => \"other\" };")
+        body.append("            let auth_state = match &auth { None => \"absent\", Some(a) if a == &format!(\"Basic {}\", base64(format!(\"{user}:{pass}\").as_bytes())) => \"correct\", _ => \"other\" };")
         body.append("            let body_is_ser = first.as_ref().map(|r| r.3 == sent).unwrap_or(false);")
         body.append("            let same_value = !value_xml.is_empty() && (value_xml == reply_exact);")
-        body.append(f"            ev.push({cid}, \"call\", &[(\"op\", s({rs_str(name)})), (\"scn\", n(scn)), (\"violates\", b(violates)), (\"creds\", b(creds)), (\"kind\", s(kind)), (\"status\", n(status as usize)), (\"body\", s(body_class)), (\"has_out\", b({str(has_out).lower()})),")
+        body.append(f"            ev.push({cid}, \"call\", &[(\"op\", s({rs_str(name)})), (\"scn\", n(scn)), (\"violates\", b(violates)), (\"creds\", s(creds)), (\"kind\", s(kind)), (\"status\", n(status as usize)), (\"body\", s(body_class)), (\"has_out\", b({str(has_out).lower()})),")
         body.append("                (\"result\", s(result)), (\"accepted\", n(seen.accepted)), (\"posts\", n(seen.requests.len())), (\"method\", s(&method)), (\"path\", s(&path)), (\"auth\", s(auth_state)), (\"body_is_ser\", b(body_is_ser)), (\"same_value\", b(same_value)), (\"declared\", s(&declared))]);")
         body.append("        }")
         body.append("    }")
